@@ -180,6 +180,26 @@ func c08Main(r *run.Runner) {
 		pr := gen.Print(scale[item])
 		c08One(w, pr.Layout(pr.Uniform(" ")).Source)
 	})
+	// long string / name bodies with one special byte (what the lexer must reject, the parser must not accept)
+	var lens []int
+	for n := 0; n <= 70; n += 1 {
+		lens = append(lens, n)
+	}
+	lens = append(lens, 127, 128, 129, 255, 256, 257, 1000)
+	r.Sweep("long-strings", int64(len(lens)), func(w *run.Worker, item int64) {
+		n := lens[item]
+		for _, fill := range []string{"A", " ", "x"} {
+			for _, special := range []string{"\n", "\r\n", "\\", "'", "\"", "`", "\\n"} {
+				for _, pos := range []int{0, n / 2, n} {
+					body := strings.Repeat(fill, pos) + special + strings.Repeat(fill, n-pos)
+					for _, q := range []string{"'", "\"", "`"} {
+						c08One(w, "let b = "+q+body+q+";\nT | where m == b | take 5")
+						c08One(w, "T | where m == "+q+body+q+" | project "+q+body+q)
+					}
+				}
+			}
+		}
+	})
 	// the large enumerations last: the families above must not be starved by the tier deadline
 	b1 := tokenSweeps(r, 4, 6, c08One)
 	b2 := corruptionSweep(r, c08One)
